@@ -247,6 +247,12 @@ func ruleR17(c *Ctx) *RuleResult {
 				continue
 			}
 			key := p.FuncKey(fn)
+			if name != "Select" && name != "Map" {
+				if facts, ok := delegatedEnumerable(c, ct, itType, fn, name, keyName); ok {
+					r.ok(key, clause, p.FuncPos(fn), facts)
+					continue
+				}
+			}
 			// an enumerable function may be written in terms of the iterator's NextTo or of a sibling (All = !Any(!f)):
 			// those bodies are expanded in place, so the rule still sees the loop that actually runs
 			gc := c.GCWith(fn, BuildOpts{Tag: "R17", Inline: func(callee *ssa.Function) bool {
@@ -1319,4 +1325,155 @@ func innerIteratorDriver(c *Ctx, fn *ssa.Function, ct, itType *types.Named, step
 		return "", "", false
 	}
 	return operand, noEpoch(et), true
+}
+
+// ---- R17: an enumerable handed on to the inner container that carries the order ----
+
+// transparentIteratorOver: the own iterator of ct is nothing but the iterator of the inner container in field F: Iterator()
+// stores <recv>.F.Iterator() in the iterator's field G, Next() hands back G.Next(), and Value() / Index() (Key()) are, term
+// for term, the inner iterator's methods read on G. Then a loop over the own iterator and a loop over F's iterator visit the
+// same pairs in the same order.
+func transparentIteratorOver(c *Ctx, ct, itType *types.Named, keyName string) (F string, inner *types.Named, ok bool) {
+	p := c.p
+	itf := methodsOf(p, ct)["Iterator"]
+	if itf == nil || itType == nil {
+		return "", nil, false
+	}
+	igc := c.GC(itf)
+	if igc.Undecided != "" || len(igc.GCs) != 1 {
+		return "", nil, false
+	}
+	G, innerIterLeaf := "", ""
+	for _, ef := range igc.GCs[0].Effects {
+		if isStore(ef) && ef.Args[0].Op == "fa" && len(ef.Args[0].Args) == 1 && ef.Args[0].Args[0].Op == "new" {
+			v := ef.Args[1]
+			if v.Op == "call" && strings.HasSuffix(v.Leaf, ").Iterator") && len(v.Args) == 2 {
+				recv := v.Args[1]
+				if recv.Op == "load" && len(recv.Args) == 1 && recv.Args[0].Op == "fa" && len(recv.Args[0].Args) == 1 && recv.Args[0].Args[0].String() == "p:0" {
+					G, F, innerIterLeaf = ef.Args[0].Leaf, recv.Args[0].Leaf, v.Leaf
+				}
+			}
+		}
+	}
+	if G == "" {
+		return "", nil, false
+	}
+	// the inner container type: the enumerable type whose Iterator has that name
+	var innerIt *types.Named
+	for _, cand := range p.T.Containers {
+		if f := methodsOf(p, cand)["Iterator"]; f != nil && p.FuncKey(f) == innerIterLeaf {
+			inner = cand
+			innerIt = namedOf(f.Signature.Results().At(0).Type())
+		}
+	}
+	if inner == nil || innerIt == nil {
+		return "", nil, false
+	}
+	recvForms := []string{"(fa:" + G + " p:0)", "(load (fa:" + G + " p:0))"}
+	var substP0 func(t *Term, by *Term) *Term
+	substP0 = func(t *Term, by *Term) *Term {
+		if t.String() == "p:0" {
+			return by
+		}
+		if len(t.Args) == 0 {
+			return t
+		}
+		n := &Term{Op: t.Op, Leaf: t.Leaf, Args: make([]*Term, len(t.Args))}
+		for i, a := range t.Args {
+			n.Args[i] = substP0(a, by)
+		}
+		return n
+	}
+	for _, m := range []string{"Value", keyName} {
+		own, in := methodsOf(p, itType)[m], methodsOf(p, innerIt)[m]
+		if own == nil || in == nil {
+			return "", nil, false
+		}
+		og, ig := c.GC(own), c.GC(in)
+		if og.Undecided != "" || ig.Undecided != "" || len(og.GCs) != 1 || len(ig.GCs) != 1 || len(og.GCs[0].Effects) != 0 || len(ig.GCs[0].Effects) != 0 {
+			return "", nil, false
+		}
+		same := false
+		for _, rf := range recvForms {
+			by := &Term{Op: "fa", Leaf: G, Args: []*Term{leaf("p", "0")}}
+			if strings.HasPrefix(rf, "(load") {
+				by = &Term{Op: "load", Args: []*Term{by}}
+			}
+			if noEpoch(og.GCs[0].Exit) == noEpoch(substP0(ig.GCs[0].Exit, by)) {
+				same = true
+			}
+		}
+		if !same {
+			return "", nil, false
+		}
+	}
+	next, inNext := methodsOf(p, itType)["Next"], methodsOf(p, innerIt)["Next"]
+	if next == nil || inNext == nil {
+		return "", nil, false
+	}
+	ng := c.GC(next)
+	if ng.Undecided != "" || len(ng.GCs) != 1 || len(ng.GCs[0].Effects) != 1 {
+		return "", nil, false
+	}
+	ef := ng.GCs[0].Effects[0]
+	if ef.Op != "do" || ef.Leaf != p.FuncKey(inNext) || len(ef.Args) != 1 || (noEpoch(ef.Args[0]) != recvForms[0] && noEpoch(ef.Args[0]) != recvForms[1]) {
+		return "", nil, false
+	}
+	ex := ng.GCs[0].Exit
+	if ex.Op != "return" || len(ex.Args) != 1 || ex.Args[0].Op != "res" || len(ex.Args[0].Args) != 1 || noEpoch(ex.Args[0].Args[0]) != noEpoch(ef) {
+		return "", nil, false
+	}
+	return F, inner, true
+}
+
+// delegatedEnumerable: fn (Each/Any/All/Find of ct) is a pure forwarder to the same-named function of the inner container
+// whose iterator the own iterator transparently wraps, the callback handed on unchanged and the results handed back in order.
+func delegatedEnumerable(c *Ctx, ct, itType *types.Named, fn *ssa.Function, name, keyName string) (string, bool) {
+	p := c.p
+	gc := c.GC(fn)
+	if gc.Undecided != "" || len(gc.GCs) != 1 {
+		return "", false
+	}
+	g := gc.GCs[0]
+	if len(g.Guards) != 0 || len(g.Effects) != 1 || g.Exit.Op != "return" {
+		return "", false
+	}
+	ef := g.Effects[0]
+	if ef.Op != "do" || len(ef.Args) != 2 || ef.Args[1].String() != "p:1" {
+		return "", false
+	}
+	F, inner, ok := transparentIteratorOver(c, ct, itType, keyName)
+	if !ok {
+		return "", false
+	}
+	innerFn := methodsOf(p, inner)[name]
+	if innerFn == nil || ef.Leaf != p.FuncKey(innerFn) || noEpoch(ef.Args[0]) != "(load (fa:"+F+" p:0))" {
+		return "", false
+	}
+	isEnum := false
+	for _, et := range enumerableTypes(p) {
+		if p.TypeKey(et) == p.TypeKey(inner) {
+			isEnum = true
+		}
+	}
+	if !isEnum {
+		return "", false
+	}
+	// results handed back in order
+	for i, a := range g.Exit.Args {
+		x := a
+		if x.Op == "ext" {
+			if x.Leaf != itoa(i) || len(x.Args) != 1 {
+				return "", false
+			}
+			x = x.Args[0]
+		}
+		if x.Op != "res" || len(x.Args) != 1 || noEpoch(x.Args[0]) != noEpoch(ef) {
+			return "", false
+		}
+	}
+	if len(g.Exit.Args) != fn.Signature.Results().Len() {
+		return "", false
+	}
+	return fmt.Sprintf("forwards to %s of the inner container in field %s, whose iterator the own iterator wraps transparently (Next, Value, %s are the inner iterator's); the inner function is itself an R17 obligation", name, F, keyName), true
 }
